@@ -94,7 +94,7 @@ func c15merge(c *core.Ctx, r *core.Report) {
 				fromH = false
 			}
 		}
-		if !fromH {
+		if !fromH && sc.Name() != "AddEdge" {
 			continue
 		}
 		var contained ssa.Value
@@ -161,7 +161,7 @@ func c15merge(c *core.Ctx, r *core.Report) {
 		}
 	}
 	if nAdd == 0 {
-		bad = append(bad, "no g.AddEdge call with operands taken from h")
+		bad = append(bad, "no g.AddEdge call")
 	}
 	if nStatus == 0 {
 		bad = append(bad, "no g.MergeNodeStatus call with operands taken from h")
